@@ -629,6 +629,73 @@ theorem default_def_wellformed (hc : c.isHtml = true) (hd : DocOnlyOnTop c l) :
   cases matchDefault c l <;> cases ancestorIs c l (isHtmlForm c) <;>
     cases c.isHtmlTag e <;> cases typeIs c e "submit" <;> cases (tagIs c e "button" || tagIs c e "input") <;> simp
 
+/-- The `type` test of `match_default`'s own scan (a non-empty string equal to `submit`, ASCII
+    case-insensitively in HTML, exactly in XML). -/
+def scanIsSubmit (c : Ctx) (e : Elem) : Bool :=
+  match (c.attrByName e "type".toStr).getD (.str []) with
+  | .str v => !v.isEmpty && (if !c.isXml then lower v else v) == "submit".toStr
+  | .list _ => false
+
+theorem scan_aux (isXml : Bool) (G : NVal) (ch : Loc) (R : Option Loc) :
+    (match G with
+      | .str v => if !v.isEmpty && (if !isXml then lower v else v) == "submit".toStr then some ch else R
+      | .list _ => R) =
+    (if (match G with
+          | .str v => !v.isEmpty && (if !isXml then lower v else v) == "submit".toStr
+          | .list _ => false) = true then some ch else R) := by
+  cases G with
+  | str v => rfl
+  | list ls => rfl
+
+/-- One step of the scan, in terms of `scanIsSubmit`. -/
+theorem firstSubmit_cons (ch : Loc) (rest : List Loc) :
+    firstSubmit c (ch :: rest) =
+      (match ch.elem? with
+       | none => firstSubmit c rest
+       | some ce =>
+         if c.tagName ce == "form".toStr then none
+         else if c.tagName ce == "input".toStr || c.tagName ce == "button".toStr then
+           (if scanIsSubmit c ce then some ch else firstSubmit c rest)
+         else firstSubmit c rest) := by
+  rw [firstSubmit]
+  cases ch.elem? with
+  | none => rfl
+  | some ce =>
+    simp only
+    cases c.tagName ce == "form".toStr
+    · cases (c.tagName ce == "input".toStr || c.tagName ce == "button".toStr)
+      · rfl
+      · simp only [Bool.false_eq_true, if_false, if_true]
+        exact scan_aux c.isXml _ ch _
+    · rfl
+
+/-- The scan's notion of "submit" and the guarding selector's `[type="submit"]` coincide — in HTML
+    *and* in XML (after the repair of the scan) — in the ASCII environment, for a `type` attribute
+    that is not list-valued. -/
+theorem scanIsSubmit_eq_typeIs (henv : c.env = asciiEnv)
+    (hstr : ∀ ls, c.attrByName e "type".toStr ≠ some (.list ls)) :
+    scanIsSubmit c e = typeIs c e "submit" := by
+  have hv := range_same_attribute c e "type" (by decide)
+  rw [typeIs_ascii c e "submit" henv, ← hv]
+  unfold scanIsSubmit
+  have hl : lower "submit".toStr = "submit".toStr := by decide
+  cases ha : c.attrByName e "type".toStr with
+  | none => rfl
+  | some w =>
+    cases w with
+    | list ls => exact absurd ha (hstr ls)
+    | str v =>
+      simp only [Option.getD_some, Option.map_some, nvalJoin, hl]
+      cases hx : c.isXml
+      · simp only [Bool.not_false, if_true, Bool.false_eq_true, if_false]
+        cases v with
+        | nil => decide
+        | cons a t => simp
+      · simp only [Bool.not_true, Bool.false_eq_true, if_false, if_true]
+        cases v with
+        | nil => decide
+        | cons a t => simp
+
 /-! ### `:indeterminate` -/
 
 /-- `:indeterminate` ⇔ a checkbox `input` carrying `indeterminate`; or an unchecked radio `input`
@@ -834,7 +901,7 @@ theorem iframe_local_indeterminate (kids : List Node) (hl : l.focus = .elem e ki
 theorem iframe_local_dir (d : Nat) :
     matchDir c l d =
       (if hasFlag d SEL_DIR_LTR && hasFlag d SEL_DIR_RTL then false
-       else matchDirWalk c d (l :: c.ancestors l true)) := rfl
+       else matchDirWalk c d false (l :: c.ancestors l true)) := rfl
 
 /-- The chains and scans above never cross an iframe boundary: no member of `c.ancestors l true`
     is an iframe … -/
@@ -854,40 +921,68 @@ theorem placeholder_text_not_cut :
 
 /-! ## 4. `:dir(ltr)` / `:dir(rtl)` -/
 
-theorem matchDir_ltr : matchDir c l SEL_DIR_LTR = matchDirWalk c SEL_DIR_LTR (l :: c.ancestors l true) := by
+theorem matchDir_ltr :
+    matchDir c l SEL_DIR_LTR = matchDirWalk c SEL_DIR_LTR false (l :: c.ancestors l true) := by
   rw [iframe_local_dir]
   have : (hasFlag SEL_DIR_LTR SEL_DIR_LTR && hasFlag SEL_DIR_LTR SEL_DIR_RTL) = false := by decide
   rw [this]; rfl
 
-theorem matchDir_rtl : matchDir c l SEL_DIR_RTL = matchDirWalk c SEL_DIR_RTL (l :: c.ancestors l true) := by
+theorem matchDir_rtl :
+    matchDir c l SEL_DIR_RTL = matchDirWalk c SEL_DIR_RTL false (l :: c.ancestors l true) := by
   rw [iframe_local_dir]
   have : (hasFlag SEL_DIR_RTL SEL_DIR_LTR && hasFlag SEL_DIR_RTL SEL_DIR_RTL) = false := by decide
   rw [this]; rfl
 
-/-- General form: if the walk of `match_dir` bottoms out on a verdict (`DirChain`), exactly one of
-    the two directionalities matches. -/
-theorem dir_partition_chain (h : DirChain c (l :: c.ancestors l true)) :
+/-- Every ancestor location is an element. -/
+theorem ancestorsAux_elem : ∀ (up : List Frame) (n : Node) (p : Loc), p ∈ Loc.ancestorsAux n up →
+    ∃ pe, p.elem? = some pe
+  | [], _, p, h => by simp [Loc.ancestorsAux] at h
+  | f :: rest, n, p, h => by
+    unfold Loc.ancestorsAux at h
+    rcases List.mem_cons.mp h with rfl | h'
+    · exact ⟨f.info, rfl⟩
+    · exact ancestorsAux_elem rest _ p h'
+
+theorem ancestors_elem (p : Loc) (hp : p ∈ c.ancestors l true) : ∃ pe, p.elem? = some pe := by
+  rw [ancestors_true] at hp
+  exact ancestorsAux_elem _ _ p ((List.takeWhile_sublist _).subset hp)
+
+/-- General form: the subject is an HTML-namespace element and the walk of `match_dir` bottoms out
+    on a verdict (`DirChain`: foreign-namespace ancestors are skipped) ⇒ exactly one of the two
+    directionalities matches. -/
+theorem dir_partition_chain (kids : List Node) (hl : l.focus = .elem e kids)
+    (hh : c.isHtmlTag e = true) (h : DirChain c (l :: c.ancestors l true)) :
     matchDir c l SEL_DIR_LTR = !matchDir c l SEL_DIR_RTL := by
-  rw [matchDir_ltr, matchDir_rtl]
+  have he : l.elem? = some e := by unfold Loc.elem?; rw [hl]; rfl
+  rw [matchDir_ltr, matchDir_rtl, matchDirWalk_html_head c _ false l e _ he hh,
+    matchDirWalk_html_head c _ false l e _ he hh]
   exact matchDirWalk_compl c _ h
 
-/-- `dir_partition`: when the chain `l :: ancestors` (with the iframe cut) consists of elements in
-    the XHTML namespace up to and including one for which `c.isRoot` holds, exactly one of
-    `:dir(ltr)`, `:dir(rtl)` matches. -/
-theorem dir_partition (pre : List Loc) (r : Loc) (post : List Loc)
-    (hsplit : l :: c.ancestors l true = pre ++ r :: post)
-    (hpre : ∀ p ∈ pre, ∃ pe, p.elem? = some pe ∧ c.isHtmlTag pe = true)
-    (hr : ∃ re, r.elem? = some re ∧ c.isHtmlTag re = true) (hroot : c.isRoot r = true) :
+/-- `dir_partition`: an element in the XHTML namespace whose chain `l :: ancestors` (with the
+    iframe cut) contains an XHTML-namespace element `r` with `c.isRoot r` is exactly one of
+    `:dir(ltr)`, `:dir(rtl)`.  Ancestors in other namespaces between the two are skipped. -/
+theorem dir_partition (kids : List Node) (hl : l.focus = .elem e kids) (hh : c.isHtmlTag e = true)
+    (r : Loc) (hmem : r ∈ l :: c.ancestors l true) (re : Elem) (hre : r.elem? = some re)
+    (hrh : c.isHtmlTag re = true) (hroot : c.isRoot r = true) :
     matchDir c l SEL_DIR_LTR ≠ matchDir c l SEL_DIR_RTL := by
-  have h := dir_partition_chain c l (hsplit ▸ DirChain_of_root c pre r post hpre hr hroot)
-  rw [h]
+  have he : l.elem? = some e := by unfold Loc.elem?; rw [hl]; rfl
+  obtain ⟨pre, post, hsplit⟩ := List.append_of_mem hmem
+  have hpre : ∀ p ∈ pre, ∃ pe, p.elem? = some pe := by
+    intro p hp
+    have hp' : p ∈ l :: c.ancestors l true := by rw [hsplit]; exact List.mem_append_left _ hp
+    rcases List.mem_cons.mp hp' with rfl | hp''
+    · exact ⟨e, he⟩
+    · exact ancestors_elem c l p hp''
+  have hchain : DirChain c (l :: c.ancestors l true) :=
+    hsplit ▸ DirChain_of_root c pre r post hpre ⟨re, hre, hrh⟩ hroot
+  rw [dir_partition_chain c l e kids hl hh hchain]
   cases matchDir c l SEL_DIR_RTL <;> simp
 
 /-- An explicit `dir="ltr"`/`dir="rtl"` on an HTML-namespace element decides by itself. -/
 theorem dir_explicit (kids : List Node) (hl : l.focus = .elem e kids) (hh : c.isHtmlTag e = true)
     (s : Str) (x : Nat) (hs : c.attrByName e "dir".toStr = some (.str s))
-    (hx : dirOfAttr (lower s) = some x) (h0 : x ≠ 0) (d : Nat) :
-    matchDirWalk c d (l :: c.ancestors l true) = (x == d) := by
+    (hx : dirOfAttr (lower s) = some x) (h0 : x ≠ 0) (d : Nat) (inh : Bool) :
+    matchDirWalk c d inh (l :: c.ancestors l true) = (x == d) := by
   have he : l.elem? = some e := by unfold Loc.elem?; rw [hl]; rfl
   rw [matchDirWalk_cons, he]
   simp only [hh, Bool.not_true, Bool.false_eq_true, if_false]
@@ -903,13 +998,21 @@ theorem dir_explicit (kids : List Node) (hl : l.focus = .elem e kids) (hh : c.is
     simp only [this, if_true]
   rw [this]; rfl
 
-/-- The other direction of the hypothesis: if every level defers to its parent, or the chain
-    leaves the XHTML namespace first, neither `:dir(ltr)` nor `:dir(rtl)` matches. -/
+/-- Converse 1: if every HTML-namespace level of the chain defers to its parent (no verdict before
+    the chain ends), neither `:dir(ltr)` nor `:dir(rtl)` matches. -/
 theorem dir_neither (h : ∀ p ∈ l :: c.ancestors l true, ∀ pe, p.elem? = some pe →
       c.isHtmlTag pe = true → dirStep c p pe = .up) :
     matchDir c l SEL_DIR_LTR = false ∧ matchDir c l SEL_DIR_RTL = false := by
   rw [matchDir_ltr, matchDir_rtl]
-  exact ⟨matchDirWalk_all_up c _ _ h, matchDirWalk_all_up c _ _ h⟩
+  exact ⟨matchDirWalk_all_up c _ _ _ h, matchDirWalk_all_up c _ _ _ h⟩
+
+/-- Converse 2: a subject outside the XHTML namespace matches neither. -/
+theorem dir_neither_foreign (kids : List Node) (hl : l.focus = .elem e kids)
+    (hh : c.isHtmlTag e = false) :
+    matchDir c l SEL_DIR_LTR = false ∧ matchDir c l SEL_DIR_RTL = false := by
+  have he : l.elem? = some e := by unfold Loc.elem?; rw [hl]; rfl
+  rw [matchDir_ltr, matchDir_rtl]
+  exact ⟨matchDirWalk_foreign_subject c _ l e _ he hh, matchDirWalk_foreign_subject c _ l e _ he hh⟩
 
 /-- The list the parser appends for `:dir(ltr)` / `:dir(rtl)` (an HTML-only list holding one
     flagged compound). -/
@@ -957,12 +1060,12 @@ theorem htmlOnly_dirStep (p : Loc) (pe : Elem) : dirStep c.htmlOnly p pe = dirSt
     htmlOnly_findBidiKids]
   rfl
 
-theorem htmlOnly_matchDirWalk (d : Nat) (ls : List Loc) :
-    matchDirWalk c.htmlOnly d ls = matchDirWalk c d ls := by
-  induction ls with
+theorem htmlOnly_matchDirWalk (d : Nat) (inh : Bool) (ls : List Loc) :
+    matchDirWalk c.htmlOnly d inh ls = matchDirWalk c d inh ls := by
+  induction ls generalizing inh with
   | nil => rw [matchDirWalk_nil, matchDirWalk_nil]
   | cons p ps ih =>
-    rw [matchDirWalk_cons, matchDirWalk_cons, ih]
+    rw [matchDirWalk_cons, matchDirWalk_cons, ih true]
     cases p.elem? with
     | none => rfl
     | some pe => simp only [htmlOnly_isHtmlTag, htmlOnly_dirStep]
@@ -994,14 +1097,14 @@ theorem dirList_rtl (hc : c.isHtml = true) :
       SEL_DIR_RTL]
   rw [this, htmlOnly_matchDir]
 
-/-- `dir_partition` at the selector level: each HTML element of a rooted chain is exactly one of
-    `:dir(ltr)` and `:dir(rtl)`. -/
-theorem dir_partition_selectors (hc : c.isHtml = true) (pre : List Loc) (r : Loc) (post : List Loc)
-    (hsplit : l :: c.ancestors l true = pre ++ r :: post)
-    (hpre : ∀ p ∈ pre, ∃ pe, p.elem? = some pe ∧ c.isHtmlTag pe = true)
-    (hr : ∃ re, r.elem? = some re ∧ c.isHtmlTag re = true) (hroot : c.isRoot r = true) :
+/-- `dir_partition` at the selector level: an HTML-namespace element with an HTML-namespace root
+    at or above it is exactly one of `:dir(ltr)` and `:dir(rtl)`. -/
+theorem dir_partition_selectors (hc : c.isHtml = true) (kids : List Node)
+    (hl : l.focus = .elem e kids) (hh : c.isHtmlTag e = true)
+    (r : Loc) (hmem : r ∈ l :: c.ancestors l true) (re : Elem) (hre : r.elem? = some re)
+    (hrh : c.isHtmlTag re = true) (hroot : c.isRoot r = true) :
     matchList c l e (dirList SEL_DIR_LTR) ≠ matchList c l e (dirList SEL_DIR_RTL) := by
   rw [dirList_ltr c l e hc, dirList_rtl c l e hc]
-  exact dir_partition c l pre r post hsplit hpre hr hroot
+  exact dir_partition c l e kids hl hh r hmem re hre hrh hroot
 
 end SoupVerif.C17
